@@ -617,6 +617,9 @@ def _wrap_result(f):
         return _to_oarr(f(*a, **k))
     g.__name__ = getattr(f, "__name__", "f")
     g.__wrapped__ = f
+    for meth in ("outer", "reduce", "accumulate", "at", "reduceat"):      # ufunc methods
+        if hasattr(f, meth):
+            setattr(g, meth, _wrap_result(getattr(f, meth)) if meth != "at" else getattr(f, meth))
     return g
 
 
